@@ -156,6 +156,16 @@ def rand_adp(rng, kinds=('Uiso', 'Uani', None)):
             return t, [v, v, v, 0.0, 0.0, 0.0]
         if u < 0.2:
             return t, [rng.uniform(0.002, 0.06) for _ in range(3)] + [0.0, 0.0, 0.0]
+        if u < 0.3:
+            # needle / disc ellipsoid (one principal value 10^1..10^3 times the others): the displacement factor of one symmetry
+            # mate underflows while the others stay of order 1 -- whatever is decided on the atom as listed is wrong for its mates
+            v = np.array([rng.gauss(0, 1) for _ in range(3)]) if rng.random() < 0.6 else np.eye(3)[rng.randrange(3)]
+            v = v / np.linalg.norm(v)
+            big, small = 10 ** rng.uniform(-0.7, 0.5), rng.uniform(0.001, 0.01)
+            um = big * np.outer(v, v) + small * np.eye(3)
+            if rng.random() < 0.3:
+                um = big * (np.eye(3) - np.outer(v, v)) + small * np.eye(3)
+            return t, [float(um[0, 0]), float(um[1, 1]), float(um[2, 2]), float(um[1, 2]), float(um[0, 2]), float(um[0, 1])]
         return t, rand_uani(rng)
     return None, None
 
